@@ -231,6 +231,30 @@ void s_cond_wait_for(int t) {
   }
 }
 
+// 20: fence-based publication (release fence + relaxed store / relaxed load + acquire fence) -> no race
+void s_fence_publish(int t) {
+  if (t == 0) {
+    payload = 42;
+    std::atomic_thread_fence(std::memory_order_release);
+    flag.store(1, std::memory_order_relaxed);
+  } else {
+    if (flag.load(std::memory_order_relaxed) == 1) {
+      std::atomic_thread_fence(std::memory_order_acquire);
+      observed[t] = payload;
+    }
+  }
+}
+// 21: the same without the acquire fence -> race
+void s_fence_missing(int t) {
+  if (t == 0) {
+    payload = 42;
+    std::atomic_thread_fence(std::memory_order_release);
+    flag.store(1, std::memory_order_relaxed);
+  } else {
+    if (flag.load(std::memory_order_relaxed) == 1) observed[t] = payload;
+  }
+}
+
 static const Scenario kScenarios[] = {
   {"plain_race", s_plain_race},       {"mutex", s_mutex},         {"atomic", s_atomic},
   {"publish_ok", s_publish_ok},       {"publish_relaxed", s_publish_relaxed},
@@ -240,6 +264,7 @@ static const Scenario kScenarios[] = {
   {"spin", s_spin},                   {"check_then_act", s_check_then_act},
   {"atomic_wait", s_atomic_wait},     {"scoped_lock", s_scoped_lock},
   {"atomic_shared_ptr", s_atomic_shared_ptr}, {"cond_wait_for", s_cond_wait_for},
+  {"fence_publish", s_fence_publish}, {"fence_missing", s_fence_missing},
 };
 const Scenario* scenarios() { return kScenarios; }
 int n_scenarios() { return (int)(sizeof kScenarios / sizeof kScenarios[0]); }
